@@ -132,8 +132,14 @@ def run_case(ctx, frames, damage, mode, handler, backend="file"):
     else:
         stream = io.BytesIO(data)
     with common.capture_logs("pyrtcm") as cap:
-        rdr = RTCMReader(stream, validate=1, quitonerror=mode, errorhandler=(user_handler if handler else None),
-                         labelmsm=(1, 2, True)[len(data) % 3])
+        from vf import posargs
+
+        # some readers get their leading options by POSITION, in the documented order
+        npos = posargs.npos_for(len(data) // 3)
+        ctx.hit(f"reader_positional_args_{npos}")
+        rdr = posargs.make_reader(RTCMReader, stream, npos, validate=1, quitonerror=mode,
+                                  errorhandler=(user_handler if handler else None),
+                                  labelmsm=(1, 2, True)[len(data) % 3])
         problem = None
         if mode in (0, 1):
             try:
